@@ -15,14 +15,7 @@ impl IndexBuilder for SqliteQueryBuilder {
         }
 
         if let Some(name) = &create.index.name {
-            write!(
-                sql,
-                "{}{}{}",
-                self.quote().left(),
-                name,
-                self.quote().right()
-            )
-            .unwrap();
+            Alias::new(name).prepare(sql.as_writer(), self.quote());
         }
 
         write!(sql, " ON ").unwrap();
@@ -50,14 +43,7 @@ impl IndexBuilder for SqliteQueryBuilder {
         }
 
         if let Some(name) = &drop.index.name {
-            write!(
-                sql,
-                "{}{}{}",
-                self.quote().left(),
-                name,
-                self.quote().right()
-            )
-            .unwrap();
+            Alias::new(name).prepare(sql.as_writer(), self.quote());
         }
     }
 
